@@ -279,8 +279,35 @@ pub fn render(d: &Doc, r: &mut Rng, random_just: bool) -> Vec<String> {
 
 /// Mutations that trigger particular diagnostic classes (returns a label)
 pub fn mutate_for_diag(lines: &mut Vec<String>, r: &mut Rng) -> &'static str {
-    match r.below(12) {
+    match r.below(15) {
         0 => { lines.insert(0, format!("REMARK   1 {}", "X".repeat(75))); "remark-too-long" }
+        12 => {
+            // REMARK lines around the 80-column limit, alone, in a run (merged into one context) or apart
+            let mk = |r: &mut Rng| format!("REMARK   1 {}{}", "X".repeat(*r.pick(&[67usize, 68, 69, 70, 75])), if r.chance(1, 4) { "   " } else { "" });
+            let n = 1 + r.below(3);
+            let at = r.below(lines.len() + 1);
+            for k in 0..n { let l = mk(r); lines.insert(at + k, l); }
+            if r.chance(1, 2) { let l = mk(r); let at2 = r.below(lines.len() + 1); lines.insert(at2, l); }
+            "remark-length-boundary"
+        }
+        13 | 14 => {
+            // a disulfide bond between two residues of the file (insertion codes included), preferably on SG atoms
+            let atoms: Vec<usize> = lines.iter().enumerate().filter(|(_, l)| (l.starts_with("ATOM") || l.starts_with("HETATM")) && l.len() >= 27 && l.is_ascii()).map(|(i, _)| i).collect();
+            if atoms.is_empty() { return "ssbond-none"; }
+            let sg: Vec<usize> = atoms.iter().copied().filter(|i| lines[*i][12..16].trim() == "SG").collect();
+            let pool = if !sg.is_empty() && r.chance(3, 4) { &sg } else { &atoms };
+            let (a, b) = (lines[*r.pick(pool)].clone(), lines[*r.pick(pool)].clone());
+            let part = |l: &str, r: &mut Rng| {
+                let ic = if r.chance(1, 8) { "A" } else { &l[26..27] };
+                format!("{:>3} {} {:>4}{}", &l[17..20], &l[21..22], l[22..26].trim(), ic)
+            };
+            let (pa, pb) = (part(&a, r), part(&b, r));
+            let mut l = format!("SSBOND   1 {}   {}{}{:>6} {:>6} {:>5}", pa, pb, " ".repeat(23), "1555", "1555", "2.03");
+            if r.chance(1, 4) { l.truncate(*r.pick(&[36usize, 59, 72, 77])); }
+            let at = lines.iter().position(|x| x.starts_with("ATOM") || x.starts_with("HETATM") || x.starts_with("MODEL")).unwrap_or(0);
+            lines.insert(at, l);
+            "ssbond"
+        }
         1 => { lines.insert(0, "REMARK  17 ODD NUMBER".to_string()); "remark-type-invalid" }
         2 => { lines.insert(0, "HEADER    SHORT".to_string()); "header-short" }
         3 => {
